@@ -97,7 +97,7 @@ REG = {
                         "FFT / polynomial algebra obligations (engine S) are not in this run yet"],
     },
     "C17": {
-        "families": [("K", "codec")],
+        "families": [("K", "codec"), ("K", "codec_gates"), ("K", "codec_proof"), ("S", "codec")],
         "explanation": (
             "Bounded model checking (Kani/CBMC) of the paired Write/Read primitives of util/serialization: write_X then "
             "read_X returns the same value and consumes exactly the written bytes for bool, u8..usize, usize vectors "
@@ -107,7 +107,7 @@ REG = {
         "assumptions": ["whole-proof, gate/generator registries and CircuitData round trips are outside (far beyond the model checker's reach)"],
     },
     "C18": {
-        "families": [("K", "decoders"), ("S", "plonkv", None, r"\.shape\.")],
+        "families": [("K", "decoders"), ("K", "codec_proof", None, r"\.dec_"), ("S", "plonkv", None, r"\.shape\.")],
         "explanation": (
             "Bounded model checking (Kani/CBMC) of the primitive proof-decoder routines on ARBITRARY byte strings of the "
             "listed lengths: read_bool/u8/u32/usize, read_field, read_hash, read_target return Ok or Err exactly as "
